@@ -405,6 +405,13 @@ func (g *GcsEmu) handleGcsUpdateMetadataRequest(ctx context.Context, baseUrl Htt
 			return fmt.Errorf("failed to update attrs of %s/%s: %w", bucket, filename, err)
 		}
 
+		// Read the updated metadata back while the object lock is still held: after
+		// it is released another request may replace or delete the object, and the
+		// response has to describe this patch's result.
+		obj, err = g.store.GetMeta(baseUrl, bucket, filename)
+		if err != nil {
+			return fmt.Errorf("failed to get meta for %s/%s: %w", bucket, filename, err)
+		}
 		return nil
 	})
 
@@ -418,11 +425,6 @@ func (g *GcsEmu) handleGcsUpdateMetadataRequest(ctx context.Context, baseUrl Htt
 	}
 
 	// Respond with the updated metadata.
-	obj, err = g.store.GetMeta(baseUrl, bucket, filename)
-	if err != nil {
-		g.gapiError(w, http.StatusInternalServerError, fmt.Sprintf("failed to get meta for %s/%s: %s", bucket, filename, err))
-		return
-	}
 	g.jsonRespond(w, obj)
 }
 
